@@ -6,6 +6,65 @@ use engine::*;
 
 pub struct C02;
 
+/// `p0` dense ones, then a group of 512 ones starting at `p` whose successor group starts at `q` with
+/// floor(q/256) - floor(p/256) == B for B around every span class; `t` ones of the group are packed right before `q`.
+fn span_class_case(cx: &mut Ctx, j: u64) -> R {
+    const B_MENU: [usize; 15] = [256, 255, 257, 128, 127, 129, 16, 15, 17, 512, 511, 513, 2, 1, 3];
+    let j = j as usize;
+    let b = B_MENU[j % 15];
+    let o = [0usize, 255, 100, 63][(j / 15 + j) % 4];
+    let t = [511usize, 2, 256, 1, 40][(j / 5) % 5];
+    let p0 = [512usize, 0, 1024][(j / 7) % 3];
+    let p = (p0 / 256 + 1) * 256 + o;
+    let q = (p / 256 + b) * 256 + [o, 0, 255, 1][(j / 11) % 4];
+    // the group must fit: 511 further ones strictly between p and q
+    let room = q - p - 1;
+    if room < 511 {
+        cx.label("span_class_skipped(no room)");
+        return Ok(());
+    }
+    let t = t.min(511);
+    let mut pos: Vec<usize> = (0..p0).collect();
+    pos.push(p);
+    let head = 511 - t;
+    // `head` ones spread evenly over the front of the room left by the packed tail
+    let front = room - t;
+    for k in 0..head {
+        pos.push(p + 1 + k * front / head.max(1));
+    }
+    for k in 0..t {
+        pos.push(q - t + k);
+    }
+    pos.extend(q..q + 515);
+    pos.dedup();
+    let len = q + 515 + [0usize, 1, 64, 300][(j / 3) % 4];
+    let mut gaps = vec![];
+    let mut last = 0usize;
+    for x in &pos {
+        gaps.push(x + 1 - last);
+        last = x + 1;
+    }
+    let desc = BvDesc { len, content: Content::Gaps(gaps), route: Route::RawClean };
+    let params = decode_params(&mut Unstructured::new(&[(j % 17) as u8, (j % 7) as u8, (j % 8) as u8, (j % 7) as u8]));
+    cx.hash(&("span-class", j));
+    cx.describe(|| format!("span-class case {j}: p0={p0} p={p} q={q} (B={b} units of 256 bits) packed tail t={t} len={len} {:?}", params));
+    cx.label(&format!("B={b}"));
+    let (bv, model) = build(cx, &desc)?;
+    if model.num_ones != pos.len() {
+        return Err(Fail::mismatch("harness", format!("harness: span-class case {j} built {} ones, wanted {}", model.num_ones, pos.len())));
+    }
+    cx.nontrivial();
+    let menu = menu();
+    let sel: Vec<&Entry> = menu.iter().filter(|e| e.has("select") || e.has("select_zero")).collect();
+    for (i, e) in sel.iter().enumerate() {
+        if e.name.contains("Select9") || i % 9 == j % 9 {
+            cx.label(&format!("s:{}", e.name));
+            (e.run)(cx, bv.clone(), &model, &params, What { select: true, select_zero: true, ..Default::default() })?;
+        }
+    }
+    Ok(())
+}
+
 impl Property for C02 {
     fn id(&self) -> &'static str {
         "C02"
@@ -22,10 +81,13 @@ impl Property for C02 {
             Segment::enumerated("huge-dense-upper-blocks", tier.pick(3, 20), &[12]),
             // inventory spans of exactly 2^32 - 1, 2^32, 2^32 + 1 (+1) bits: the 32/64-bit span boundary
             Segment::enumerated("huge-exact-2^32-spans", 12, &[13]),
+            // one group of 512 ones whose extent sits at, just below and just above every span class of a
+            // two-level inventory (1, 2, 16, 128, 256, 512 units of 256 bits), with its last ones packed at the end
+            Segment::enumerated("span-class-boundaries", tier.pick(90, 360), &[14]),
         ]
     }
     fn rule(&self) -> &'static str {
-        "case = (bit-vector description incl. prescribed gap lists around 2^16 and stale tails, parameters (target span, log2 ones per inventory 0..=16, max log2 words per subinventory 0..=6, blocks per inventory), a subset of the select-capable stacks of the menu) decoded from bytes; oracle = positions of ones/zeros of the logical bits; observed select(r)/select_zero(r) for every r<count (sampled above 4096) and None for r in {count, count+1, count+64, len, len+1, usize::MAX}. Non-trivial: at least two ones (resp. zeros) and len>64, or a label among span>2^16, words%4!=0&sparse, stale_tail; distinct = distinct hash of the decoded case."
+        "case = (bit-vector description incl. prescribed gap lists around 2^16 and stale tails, parameters (target span, log2 ones per inventory 0..=16, max log2 words per subinventory 0..=6, blocks per inventory), a subset of the select-capable stacks of the menu) decoded from bytes; oracle = positions of ones/zeros of the logical bits; observed select(r)/select_zero(r) for every r<count (sampled above 4096) and None for r in {count, count+1, count+64, len, len+1, usize::MAX}. Plus an enumerated segment of vectors holding one group of 512 ones that extends over exactly B units of 256 bits for B in {1,2,3,15,16,17,127,128,129,255,256,257,511,512,513} (the span classes of two-level inventories) with 1..511 of its ones packed at its end, under every Select9 stack and a rotating ninth of the others. Non-trivial: at least two ones (resp. zeros) and len>64, or a label among span>2^16, words%4!=0&sparse, stale_tail; distinct = distinct hash of the decoded case."
     }
     fn run(&self, data: &[u8], cx: &mut Ctx) -> R {
         let (mode, rest) = data.split_first().unwrap_or((&0, &[]));
@@ -36,6 +98,11 @@ impl Property for C02 {
             cx.hash(&("huge", j));
             cx.describe(|| format!("huge case {j}: more than 2^32 bits, pattern {}", if j >= 3000 { 7 } else if j >= 2000 { 6 } else { j % 5 }));
             return crate::huge::select_case(cx, j);
+        }
+        if *mode == 14 {
+            let mut b = [0u8; 8];
+            b[..rest.len().min(8)].copy_from_slice(&rest[..rest.len().min(8)]);
+            return span_class_case(cx, u64::from_le_bytes(b));
         }
         let cap = match mode % 3 {
             0 => 1100,
